@@ -41,4 +41,16 @@ with `cancelChecksOwner := true`. -/
 theorem fact_cancel_owner4 : Gen.nclient4_cancel_checks_owner = some true := by decide
 theorem fact_cancel_owner6 : Gen.nclient6_cancel_checks_owner = some true := by decide
 
+/-- `send` inserts the entry into `c.pending` before it writes the datagram (LTS:
+`register` precedes `transmit`; timed model: a reply that arrives at offset 0 of
+a try belongs to that try). -/
+theorem fact_register_before_write4 : Gen.nclient4_register_before_write = some true := by decide
+theorem fact_register_before_write6 : Gen.nclient6_register_before_write = some true := by decide
+
+/-- `Close` closes `c.done` and waits for the receive loop whatever the
+connection's own `Close` returns (LTS label `close` is unconditional; timed
+model: a waiting call observes `closed` at the instant of Close). -/
+theorem fact_close_always_wakes4 : Gen.nclient4_close_always_wakes = some true := by decide
+theorem fact_close_always_wakes6 : Gen.nclient6_close_always_wakes = some true := by decide
+
 end Dhcp.Facts.Client
